@@ -349,6 +349,8 @@ CASES = {
     "syntax-error-in-main-clean-import": ('use "m.oal" as m;\nres /items on get -> <m.item>; ;\n', {"m.oal": "let item = { 'id num };\n"}, 1),
     "syntax-error-in-first-of-two-imports": ('use "a.oal" as a;\nuse "b.oal" as b;\nres / on get -> <a.t & b.u>;\n', {"a.oal": "let t = { 'x num }; }\n", "b.oal": "let u = { 'y str };\n"}, 1),
     "type-error-in-import": ('use "m.oal" as m;\nres / on get -> <m.t>;\n', {"m.oal": "let t = {} & num;\n"}, 1),
+    "no-resources": ("let a = { 'x num };\nlet f y = [y];\n", {}, 0),
+    "imports-only": ('use "m.oal" as m;\n', {"m.oal": "let t = { 'k str };\n"}, 0),
     "two-modules-ok": ('use "m.oal" as m;\nres / on get -> <m.t>;\n', {"m.oal": "let t = { 'k str };\n"}, 0),
 }
 SENTINEL = "SENTINEL: pre-existing target\n"
